@@ -200,3 +200,20 @@ Example ex_collision :
   let st := run [ALogin None 7; AStep (TLogin 0) 0; AStep (TLogin 0) 0; ALogin None 7; AStep (TLogin 1) 0] init in
   exists x, alookup 0 (sessions st) = Some x /\ s_closed x = true /\ getbyid st 7 = Some 1.
 Proof. vm_compute. eexists; repeat split. Qed.
+
+(* the four-step cross-session history: S registers name 5 and closes it, T registers 5, S repeats
+   the close and then disconnects — under a quota of 3 ports: T's entry and proxy are untouched *)
+Example ex_former_owner :
+  let st := run [ALogin None 7; AStep (TLogin 0) 0; AStep (TLogin 0) 0;
+                 ALogin None 8; AStep (TLogin 1) 0; AStep (TLogin 1) 0;
+                 AReq 0 (RNew 5 0 1%Z true true); AStep (TSess 0) 0; AStep (TSess 0) 0; AStep (TSess 0) 0; AStep (TSess 0) 0;
+                 AReq 0 (RClose 5); AStep (TSess 0) 0;
+                 AReq 1 (RNew 5 1 1%Z true true); AStep (TSess 1) 0; AStep (TSess 1) 0; AStep (TSess 1) 0; AStep (TSess 1) 0;
+                 AReq 0 (RClose 5); AStep (TSess 0) 0;
+                 AEof 0; AStep (TSess 0) 0; AStep (TSess 0) 0] (init_with 3%Z) in
+  alookup 5 (pxys st) = Some 1 /\
+  (exists pr, alookup 1 (proxies st) = Some pr /\ p_owner pr = 1 /\ p_status pr = PRunning) /\
+  (exists pr, alookup 0 (proxies st) = Some pr /\ p_owner pr = 0 /\ p_status pr = PClosed) /\
+  (exists z, alookup 0 (sessions st) = Some z /\ s_done z = true /\ s_ports z = 0%Z) /\
+  (exists y, alookup 1 (sessions st) = Some y /\ alookup 5 (s_proxies y) = Some 1 /\ s_ports y = 1%Z).
+Proof. vm_compute. repeat split; eexists; repeat split. Qed.
